@@ -978,9 +978,23 @@ def run(report):
         text = "\n".join(x for x in root if x) + "\n"
         fcases.append({"kind": "modules", "files": {"justfile": text, "foo.just": modtext, "imp.just": "imported:\n  echo imp\n"}, "formatted": None})
 
+    # a `mod` statement with an explicit path that is also one of the places searched by default, while ANOTHER of those
+    # places holds a different file: the path must survive formatting
+    other = "other:\n  echo other\n"
+    for stmt, files in [("mod foo 'foo.just'", {"foo.just": modtext, "foo/mod.just": other}),
+                        ("mod foo 'foo/mod.just'", {"foo.just": other, "foo/mod.just": modtext}),
+                        ("mod foo './foo.just'", {"foo.just": modtext, "foo/justfile": other}),
+                        ("mod foo 'foo/justfile'", {"foo/justfile": modtext, "foo/.justfile": other}),
+                        ("mod? foo 'foo.just'", {"foo/mod.just": other}),
+                        ("mod? foo 'foo/mod.just'", {"foo.just": other}),
+                        ("mod foo 'foo.just'", {"foo.just": modtext})]:
+        for tail in ("", "\ntop:\n  echo top\n"):
+            fcases.append({"kind": "module-paths", "files": dict({"justfile": stmt + "\n" + tail}, **files), "formatted": None})
+
     def run_file(c):
         with C.scratch("c10") as d:
             for rel, text in c["files"].items():
+                os.makedirs(os.path.dirname(os.path.join(d, rel)), exist_ok=True)
                 with open(os.path.join(d, rel), "wb") as f:
                     f.write(text.encode("utf-8"))
             path = os.path.join(d, "justfile")
